@@ -161,6 +161,9 @@ class Runner:
         funcs = [('compiled', func)]
         if fcopy:
             funcs.append(('compiled-' + fcopy, do_copy(func, fcopy)))
+        if not hasattr(self, 'compiled'):
+            self.compiled = []
+        self.compiled.append((name, funcs, in_ovs, out_keys, copy.deepcopy(spec)))
         ovs = []
         for ov, a in zip(in_ovs, args):
             o2 = list(ov)
@@ -185,6 +188,33 @@ class Runner:
         self.observed += 1
         self.labels += ['op:call', 'obj:' + self.kind[name]] + ([('fcopy:' + fcopy)] if fcopy else [])
 
+    def recall(self, idx, args, sub):
+        """A function compiled earlier in the history is called again, after whatever happened to the objects since."""
+        stored = getattr(self, 'compiled', [])
+        if not stored:
+            self.labels.append('recall-skipped')
+            return
+        name, funcs, in_ovs, out_keys, spec = stored[idx % len(stored)]
+        ovs = []
+        for i, ov in enumerate(in_ovs):
+            a = args[i % len(args)]
+            o2 = list(ov)
+            o2[2] = a if ov[0] == 'cell' else _shape_like(spec, ov, a)
+            ovs.append(o2)
+        expected = W.evaluate(spec, O.to_cells(spec, ovs))
+        tag = '+'.join(O.ov_labels(spec, ovs))
+        for fname, f in funcs:
+            res = f(*[O.repo_value(spec, o) for o in ovs])
+            if len(out_keys) == 1:
+                res = [res]
+            for k, rv in zip(out_keys, res):
+                got, exp = sut.one(rv), expected.get(k)
+                if not isinstance(exp, W.Unsure) and not X.same(got, 0.0 if isinstance(exp, sut.Blank) else exp, 1e-9):
+                    self.fail('%s|recall:%s|%s' % (sub, fname, tag), '[%s] %s: %s called again later gives %r, reference %r (args %r)' % (
+                        name, G.node_id(spec, k), fname, got, exp, args))
+        self.observed += 1
+        self.labels += ['op:recall']
+
     # -- unobserved operations -----------------------------------------------
     def other(self, op):
         k = op[0]
@@ -192,7 +222,20 @@ class Runner:
         if m is None:
             return
         if k == 'to_dict':
-            m.to_dict()
+            d = m.to_dict()
+            if getattr(self, 'observe_export', False):
+                # the export of any object (original or copy) describes the same workbook: imported again it calculates
+                # to the reference values of that object's spec
+                import json
+                import re
+                spec = self.specs[op[1]]
+                m2 = sut.ExcelModel().from_dict(json.loads(json.dumps(d)))
+                flat, _ = G.flatten(m2.calculate())
+                signrun = any(isinstance(v, str) and v.startswith('=') and re.search(r'[-+]\s*[-+]', v) for v in d.values())
+                for s_, d_ in G.compare(spec, flat, W.evaluate(spec), sub='export'):
+                    self.fail('export|%s|%s%s' % (self.kind[op[1]], s_.split('|', 1)[1], '|sign-run' if signrun else ''),
+                              '[%s] to_dict -> from_dict: %s' % (op[1], d_))
+                self.observed += 1
         elif k == 'write':
             if op[2] == 'disk':
                 self.n += 1
@@ -253,6 +296,10 @@ class Runner:
 
     def run(self, ops, sub):
         for op in ops:
+            if op[0] == 'recall':
+                self.recall(op[1], op[2], sub)
+                self.trace.append(['recall', op[1]])
+                continue
             if op[1] not in self.objs and op[0] != 'copy':
                 continue
             if op[0] == 'copy' and op[1] not in self.objs:
@@ -295,6 +342,10 @@ def histories(draw, tier, max_ops=8, objects=('A',), copies=('deepcopy',), name_
         kinds = ['calc', 'calc', 'calc', 'call', 'to_dict', 'write', 'finish', 'copy', 'copy'] + (['edit', 'edit', 'extend', 'extend'] if edits else [])
         k = 'calc' if last else draw(st.sampled_from(kinds))
         obj = draw(st.sampled_from(live))
+        if k in ('to_dict', 'finish') and any(o[0] == 'call' for o in ops) and draw(st.booleans()):
+            # a function compiled earlier is called again (other arguments) after the operations in between
+            ops.append(['recall', draw(st.integers(0, 3)), [draw(O.VALS_NOBLANK) for _ in range(2)]])
+            continue
         if k == 'calc':
             prev = [o for o in ops if o[0] == 'calc' and o[2]]
             if prev and draw(st.integers(0, 2)) == 0:
